@@ -95,19 +95,19 @@ ReqIdT     == OrT(<<BaseT("integer"), BaseT("string")>>)
 RespIdT    == OrT(<<BaseT("integer"), BaseT("string"), NullT>>)
 
 HasParams(d) == "params" \in DOMAIN d
-ParamsProp(d) == IF HasParams(d) THEN [name |-> "params", type |-> d.params]
-                 ELSE [name |-> "params", type |-> NullT, optional |-> TRUE]
+\* a message that declares no params has no params property at all ("params": null on such a
+\* message is a zone the properties are silent about, DESIGN 4.2)
+ParamsProp(d) == IF HasParams(d) THEN << [name |-> "params", type |-> d.params] >> ELSE << >>
 
-RequestProps(m) == << [name |-> "id", type |-> ReqIdT],
-                      ParamsProp(ReqDef[m]),
-                      [name |-> "method", type |-> LitT(m)],
-                      [name |-> "jsonrpc", type |-> LitT("2.0")] >>
+RequestProps(m) == << [name |-> "id", type |-> ReqIdT] >> \o ParamsProp(ReqDef[m])
+                   \o << [name |-> "method", type |-> LitT(m)],
+                         [name |-> "jsonrpc", type |-> LitT("2.0")] >>
 ResponseProps(m) == << [name |-> "id", type |-> RespIdT, forceRequired |-> TRUE],
                        [name |-> "result", type |-> Opt(ReqDef[m], "result", NullT), alwaysWritten |-> TRUE],
                        [name |-> "jsonrpc", type |-> LitT("2.0")] >>
-NotificationProps(m) == << ParamsProp(NotDef[m]),
-                           [name |-> "method", type |-> LitT(m)],
-                           [name |-> "jsonrpc", type |-> LitT("2.0")] >>
+NotificationProps(m) == ParamsProp(NotDef[m])
+                        \o << [name |-> "method", type |-> LitT(m)],
+                              [name |-> "jsonrpc", type |-> LitT("2.0")] >>
 
 (***************************************************************************)
 (* A class reference is a record [kind, name]:                             *)
